@@ -75,6 +75,12 @@ CLAIMED = {
          'the previous operation was of the other kind and RDWR opens start writing at the end; SFC_FILE_TRUNCATE seeks, stores the frame count and truncates at the byte position taken after the '
          'seek, read-only handles refused; WAV RDWR close truncates only a stale tail and rewrites the header afterwards. Operation-sequence semantics are not decided.',
          'partial-evaluation decision table vs documented oracle; required-fact checks on normalised wrapper sheets; dominance rules'),
+ 'C18': ('DESIGN.md §4 C18',
+         'Both peak updaters scan per channel with stride = channels, strict comparisons (first occurrence wins inside and across calls) and the documented position formula, and agree with '
+         'each other; every float/double write path calls the updater on the converted chunk, with the chunk offset in frames, before byte swap and write; chunk lengths are rounded to whole '
+         'frames; the two CALC helpers save position and SFC_GET_NORM_DOUBLE and restore both on every path after the first change; GET commands read exactly `channels` stored peaks. '
+         'Numerical equality with the true maxima is not decided.',
+         'fact extraction from loop/branch structure + sibling agreement + save/restore PAIR (must-pass) rules'),
 }
 REASONS = {}
 DEFAULT_REASON = 'check not built yet (work in progress); see DESIGN.md'
